@@ -36,6 +36,10 @@ class CoverpointBinArrayModel(CoverpointBinModelBase):
         self.low = low 
         self.high = high 
         self.hit_bin_idx = -1
+        # Index of the first bin within the enclosing bin collection.
+        # When set, bins are named relative to the collection, such that 
+        # the names of all bins in the collection are distinct
+        self.name_idx_base = None
         
     def finalize(self, bin_idx_base:int)->int:
         super().finalize(bin_idx_base)
@@ -50,6 +54,8 @@ class CoverpointBinArrayModel(CoverpointBinModelBase):
         )
     
     def get_bin_name(self, bin_idx):
+        if self.name_idx_base is not None:
+            return self.name + "[" + str(self.name_idx_base+bin_idx) + "]"
         return self.name + "[" + str(self.bin_idx_base+bin_idx) + "]"
             
     def sample(self):
@@ -95,6 +101,7 @@ class CoverpointBinArrayModel(CoverpointBinModelBase):
 
     def clone(self)->'CoverpointBinArrayModel':
         ret = CoverpointBinArrayModel(self.name, self.low, self.high)
+        ret.name_idx_base = self.name_idx_base
         ret.srcinfo_decl = None if self.srcinfo_decl is None else self.srcinfo_decl.clone()
         
         return ret
